@@ -129,6 +129,12 @@ func restoreWorkingDirectory(rootGoitPath, path string, index *store.Index) erro
 		}
 	}
 
+	// an empty directory that took the place of the file is not worth keeping (a directory with content stays,
+	// and the restore fails below)
+	if info, err := os.Stat(absPath); err == nil && info.IsDir() {
+		_ = os.Remove(absPath)
+	}
+
 	// restore file
 	f, err := os.Create(absPath)
 	if err != nil {
@@ -261,6 +267,20 @@ var restoreCmd = &cobra.Command{
 					return fmt.Errorf("fail to get file info '%s': %w", arg, err)
 				}
 
+				// the staging area does not care what stands in the working tree: a path that is a file in the
+				// index or in HEAD is restored as such even if a directory has taken its place on disk
+				if f.IsDir() {
+					fileArg := strings.ReplaceAll(filepath.Clean(arg), `\`, "/")
+					_, _, isRegisteredAsFile := client.Idx.GetEntry([]byte(fileArg))
+					node, isNodeFound := object.GetNode(tree.Children, fileArg)
+					if isRegisteredAsFile || (isNodeFound && len(node.Children) == 0) {
+						if err := restoreIndex(client.RootGoitPath, fileArg, client.Idx, tree); err != nil {
+							return err
+						}
+						continue
+					}
+				}
+
 				if f.IsDir() { // directory
 					filePaths, err := file.GetFilePathsUnderDirectory(argAbsPath)
 					if err != nil {
@@ -347,6 +367,14 @@ var restoreCmd = &cobra.Command{
 				}
 				if err != nil {
 					return fmt.Errorf("fail to get file info '%s': %w", arg, err)
+				}
+
+				// a tracked file whose place is taken by a directory in the working tree
+				if _, _, isRegisteredAsFile := client.Idx.GetEntry([]byte(strings.ReplaceAll(filepath.Clean(arg), `\`, "/"))); f.IsDir() && isRegisteredAsFile {
+					if err := restoreWorkingDirectory(client.RootGoitPath, strings.ReplaceAll(filepath.Clean(arg), `\`, "/"), client.Idx); err != nil {
+						return err
+					}
+					continue
 				}
 
 				if f.IsDir() { // directory
